@@ -334,7 +334,7 @@ class C05(Prop):
         big = tier == 'thorough'
         out = []
         j = 0
-        for rep in range(20 if big else 1):
+        for rep in range(12 if big else 1):      # (each case is verified in two contexts since the audit round)
             for tpl in TEMPLATES:
                 hts = list(HT_DEFINED) + list(HT_UNDEFINED if big else HT_UNDEFINED[(j % 2)::2])
                 for ht in hts:
